@@ -764,8 +764,57 @@ static Profile P_C09() { Profile p; p.name = "c09"; p.oracles = O_C09; p.w_rotat
 static Profile P_C14() { Profile p = P_C02(); p.name = "c14"; p.oracles = O_C14 | O_C01 | O_C02 | O_C10; p.big_strings = true; p.force_compression = true; p.w_rotate = 3; return p; }
 static Profile P_C17() { Profile p; p.name = "c17"; p.oracles = O_C17 | O_C01; p.w_retune = 2; p.w_rotate = 1; p.hint_modes = false; p.w_mm = 6; p.w_aec = 1; p.pres_fixed = 5; return p; }
 
+// ---- C13: outputs that receive very many blocks (per-output block counters must not wrap) ---------------------
+// max_block_items = 1, one tiny record per block; counts around 2^16 (and 2 * 2^16) x {rotation with export, rotation without
+// export, destruction}; enumerated.  Every output must be one complete document holding exactly its records, in order.
+static void c13_many_blocks(Case& cs) {
+  Chooser& c = cs.c;
+  static const unsigned COUNTS[] = {65535, 65536, 65537, 131072, 131075};
+  uint64_t cell = c.range(0, 5 * 3 - 1);
+  unsigned n1 = COUNTS[cell / 3];
+  int how = (int)(cell % 3);   // 0 rotate(export=true), 1 rotate(export=false), 2 destroy
+  if (cs.size < 60 && n1 > 70000) { cs.st.cnt("skipped_in_quick_tier"); return; }
+  CDNS::FilePreamble fp;
+  fp.m_block_parameters[0].storage_parameters.max_block_items = 1;
+  std::string base = cs.scratch + "/many";
+  std::vector<std::string> outs = {base + "0", base + "1"};
+  unsigned n2 = 5;
+  {
+    CDNS::CdnsExporter ex(fp, outs[0], CDNS::CborOutputCompression::NO_COMPRESSION);
+    CDNS::GenericQueryResponse q;
+    for (unsigned i = 0; i < n1; i++) { q.transaction_id = (uint16_t)(i & 0xFFFF); q.client_port = (uint16_t)(i >> 16); ex.buffer_qr(q); }
+    if (how != 2) {
+      ex.rotate_output(outs[1], how == 0);
+      for (unsigned i = 0; i < n2; i++) { q.transaction_id = (uint16_t)(i + 7); q.client_port = 9; ex.buffer_qr(q); }
+    }
+  }
+  std::string desc = std::to_string(n1) + " blocks of one record into one output, then " + (how == 0 ? "rotate_output(export=true)" : how == 1 ? "rotate_output(export=false)" : "destruction");
+  cs.sample = desc;
+  for (size_t oi = 0; oi < (how == 2 ? 1u : 2u); oi++) {
+    std::string bytes;
+    VF_CHECK(read_file(outs[oi], bytes), "sig=c13.many_blocks.missing output " << oi << " missing : " << desc);
+    M::FileM fm; cdnsref::Report rep;
+    bool wf = cdnsref::interpret(bytes, fm, rep);
+    VF_CHECK(wf && rep.ok(), "sig=c13.many_blocks.invalid output " << oi << " (" << bytes.size() << " B) is not one complete valid document: " << rep.first() << " : " << desc);
+    size_t want = oi == 0 ? n1 : n2;
+    size_t got = 0; bool order = true;
+    for (auto& b : fm.blocks) for (auto& r : b.qrs) {
+      auto it = r.find(M::Q_TXID);
+      uint64_t tx = it == r.end() ? ~0ull : (uint64_t)it->second.i;
+      uint64_t expect_tx = oi == 0 ? (got & 0xFFFF) : got + 7;
+      if (tx != expect_tx) order = false;
+      got++;
+    }
+    VF_CHECK(got == want && order, "sig=c13.many_blocks.records output " << oi << " holds " << got << " records in " << fm.blocks.size() << " blocks, expected " << want << " in submission order : " << desc);
+    ::unlink(outs[oi].c_str());
+  }
+  cs.nontrivial = true;
+  cs.st.cls("blocks_in_one_output:" + std::to_string(n1));
+}
+
 int main(int argc, char** argv) {
   Registry r;
+  r.add("c13_many_blocks", c13_many_blocks);
   static Profile ps[] = {P_ALIGN("c01align", O_C01), P_ALIGN("c02align", O_C02), P_ALIGN("c10align", O_C10), P_ALIGN("c13align", O_C13), P_ALIGN("c15align", O_C02), P_C01(), P_C01BIG(), P_C01HUGE(), P_C02(), P_C04(), P_C10(), P_C11(), P_C12(), P_C12E(), P_C13(), P_C09(), P_C14(), P_C17()};
   for (auto& p : ps) { const Profile* pp = &p; r.add(std::string("hist_") + p.name, [pp](Case& cs) { hist_case(cs, *pp); }); }
   return harness_main(argc, argv, r);
